@@ -10,15 +10,15 @@ import "fmt"
 type verdict struct{ Key, What string }
 
 type ocall struct {
-	join                          bool
-	a                             int
-	pushed, released, cancelled   bool
-	returned                      bool
-	outcome                       string
-	selfSeen, unavSeen, errSeen   bool   // a reason to return arrived after the call started
-	due                           string // reason that arrived while the call was published and not cancelled
-	owed                          string // ... and the call was in its select, uncancelled: it must return with it
-	intact                        bool   // no unavailable presence for the address since the call started
+	join                        bool
+	a                           int
+	pushed, released, cancelled bool
+	returned                    bool
+	outcome                     string
+	selfSeen, unavSeen, errSeen bool   // a reason to return arrived after the call started
+	due                         string // reason that arrived while the call was published and not cancelled
+	owed                        string // ... and the call was in its select, uncancelled: it must return with it
+	intact                      bool   // no unavailable presence for the address since the call started
 }
 
 func runOracle(tr []Label, cbPres, cbInv []int, invVariants []int) []verdict {
